@@ -150,7 +150,7 @@ def traces(ctx, pool, nc, ntr):
             if not (isinstance(o, dict) and 'cov' in o):
                 continue
             idx = o['cov'] - 1
-            if idx in rej_ids:
+            if idx in rej_ids or idx >= len(trs):      # (the corrupted self-test session is not judged)
                 continue
             ev = trs[idx][o['l'] - 1]
             bad = C.finish_cov_event(ev, o, nc)
